@@ -1,6 +1,8 @@
 //! mdx-harness — runs the *real* contracts of /repo in-process and writes one line per operation:
 //! `<op> <args…> => <canonical result>`.  The Lean driver replays the left-hand sides through the
 //! model; bin/check diffs the two streams.
+mod gen;
+mod proto;
 mod rng;
 mod streams;
 
@@ -20,7 +22,6 @@ impl Out {
     }
 }
 
-/// run `f`, mapping a panic to Err("panic")
 thread_local! { static IN_GUARD: std::cell::Cell<u32> = const { std::cell::Cell::new(0) }; }
 
 pub fn guarded<T>(f: impl FnOnce() -> Result<T, String>) -> Result<T, String> {
